@@ -9,7 +9,8 @@ for d in sorted(os.listdir('/verif/seeded')):
 checks = ["C01", "C02", "C03", "C14", "C17", "C19", "C20"]
 out = []
 out.append("## 9. Seeded changes: which check catches which\n")
-out.append("Every change below was written by a fresh sub-agent that was given only the text of one property and a scratch\n"
+out.append("Every change below (except the two `own-*` probes, written by hand for a relation no agent change exercised) was\n"
+           "written by a fresh sub-agent that was given only the text of one property and a scratch\n"
            "worktree (nothing from /verif), asked for a change that compiles, passes the full test suite and needs something\n"
            "specific to manifest. Each was confirmed in its scratch worktree (`tools/confirm_mutant.sh`: suite passes with the\n"
            "change, the agent's demonstration fails with it and passes without it) and is kept as `/verif/seeded/<id>/`\n"
